@@ -42,6 +42,9 @@ import (
 // database while commitments/evals are outstanding" (see KNOWN_FINDINGS).
 const sigReloadPending = "smobserver/reload-of-stored-dkg-with-outstanding-messages:rejects-them-as-duplicates"
 
+// sigPersistedMemory: the state oracle "persisted == memory at every commit point".
+const sigPersistedMemory = "persisted-dkg-state-differs-from-memory"
+
 type crashSentinelT struct{}
 
 var crashSentinel = &crashSentinelT{}
@@ -88,17 +91,68 @@ type victimTracer struct {
 	units  []unitInfo
 	bcasts []string // kind of every accepted broadcast, in order
 
-	plan           []crashPoint // crashes still to inject, in order
-	armedRPC       int          // accepted-broadcast number at which to die (0 = none)
-	armedAt        int64        // db: relative round-trip number of the armed fault
-	crashes        []string     // what happened
-	zombie         int          // round trips the dying process still made after the fault fired
-	polys          []string     // distinct stored polynomials seen (hex of gammas)
-	polyEvals      map[int]string
-	problems       []string // oracle (3) violations noticed while the run goes on
-	crashOpen      []int64
-	planLeft       int  // crash points not reached when the scheduled part of the run ended
-	crashedPending bool // some crash happened while a DKG with outstanding commitments/evals was stored
+	plan                   []crashPoint // crashes still to inject, in order
+	armedRPC               int          // accepted-broadcast number at which to die (0 = none)
+	armedAt                int64        // db: relative round-trip number of the armed fault
+	crashes                []string     // what happened
+	zombie                 int          // round trips the dying process still made after the fault fired
+	polys                  []string     // distinct stored polynomials seen (hex of gammas)
+	polyEvals              map[int]string
+	problems               []string // oracle (3) violations noticed while the run goes on
+	crashOpen              []int64
+	planLeft               int  // crash points not reached when the scheduled part of the run ended
+	crashedAfterCommitOnly bool // some crash happened while the last DKG-relevant block applied carried only commitments
+	crashedPending         bool // some crash happened while a DKG with outstanding commitments/evals was stored
+}
+
+// afterCommitmentOnlyBlock: the newest block the victim has applied that
+// touches its DKG state at all carried nothing but polynomial commitments (no
+// eval addressed to the victim, no accusation, no apology, no phase change) -
+// the commitments of that block exist nowhere but in the puredkg row that the
+// block's own transaction wrote.
+func (vt *victimTracer) afterCommitmentOnlyBlock() bool {
+	r := vt.r
+	r.observe()
+	if r.h0 == 0 {
+		return false
+	}
+	n := vt.node()
+	L := r.sc.L
+	for h := n.syncedTo(); h >= r.h0; h-- {
+		b := r.chain.Block(h)
+		if b == nil {
+			continue
+		}
+		if h == r.h0 || h == r.h0+L || h == r.h0+2*L || h == r.h0+3*L {
+			return false
+		}
+		commit, other := false, false
+		for _, tx := range b.Txs {
+			if tx.Code != 0 || tx.Msg == nil {
+				continue
+			}
+			switch {
+			case tx.Msg.GetPolyCommitment() != nil && tx.Msg.GetPolyCommitment().Eon == r.eon:
+				commit = true
+			case tx.Msg.GetPolyEval() != nil && tx.Msg.GetPolyEval().Eon == r.eon && tx.Signer != n.Addr:
+				for _, rc := range tx.Msg.GetPolyEval().Receivers {
+					if common.BytesToAddress(rc) == n.Addr {
+						other = true
+					}
+				}
+			case tx.Msg.GetAccusation() != nil && tx.Msg.GetAccusation().Eon == r.eon,
+				tx.Msg.GetApology() != nil && tx.Msg.GetApology().Eon == r.eon:
+				other = true
+			}
+		}
+		if other {
+			return false
+		}
+		if commit {
+			return h < r.h0+3*L // after finalization there is no DKG state left
+		}
+	}
+	return false
 }
 
 // pendingDKG: the victim's database holds the DKG state of the eon and the
@@ -290,6 +344,9 @@ func (vt *victimTracer) step(r *Run, n *Node, budget int) error {
 		if pendingBefore || vt.pendingDKG() {
 			vt.crashedPending = true
 		}
+		if vt.afterCommitmentOnlyBlock() {
+			vt.crashedAfterCommitOnly = true
+		}
 		vt.crashOpen = append(vt.crashOpen, open)
 		vt.plan = vt.plan[1:]
 		n.stop()
@@ -368,25 +425,28 @@ func (vt *victimTracer) afterRestartChecks() { vt.observeSecret("after restart")
 // ---------------------------------------------------------------------------
 
 type c08Result struct {
-	units          []unitInfo
-	bcasts         []string
-	stats          agreeStats
-	crashes        []string
-	zombie         int
-	restarts       int
-	unsupported    []string
-	prefixOK       bool
-	execErr        error
-	h0             int64
-	crashedPending bool
-	divergence     string
+	units                  []unitInfo
+	bcasts                 []string
+	stats                  agreeStats
+	crashes                []string
+	zombie                 int
+	restarts               int
+	unsupported            []string
+	prefixOK               bool
+	execErr                error
+	h0                     int64
+	crashedPending         bool
+	crashedAfterCommitOnly bool
+	persistFailed          bool
+	divergence             string
 }
 
 // c08Scenario: variant 0 and 1 are all honest (two keyper-set orders, check-in
 // fork on/off). Variant 2 adds a Byzantine third keyper that deals a wrong
 // eval to the victim and accuses it falsely (and apologizes correctly), so
 // that the victim also has to get an accusation and an apology through the
-// crash; every honest keyper still succeeds in the crash-free twin.
+// crash; every honest keyper still succeeds in the crash-free twin. Variant 3
+// is all honest with one broadcast per keyper and block.
 func c08Scenario(variant, victim int) Scenario {
 	orders := [][]int{{0, 1, 2}, {2, 0, 1}, {1, 2, 0}}
 	sc := Scenario{N: 3, T: 2, L: 8, Order: orders[variant%len(orders)], Byz: map[int]ByzStrategy{}, Fair: true, ForkEnabled: variant%2 == 0, Tail: 8}
@@ -394,6 +454,13 @@ func c08Scenario(variant, victim int) Scenario {
 		b := (victim + 1) % 3
 		other := (victim + 2) % 3
 		sc.Byz[b] = ByzStrategy{Commit: cmCorrect, Eval: map[int]int{victim: evWrong, other: evCorrect}, Accuse: []int{victim}, Apology: apCorrect, DealOff: 2, AccOff: 2, ApoOff: 4}
+	}
+	if variant == 3 {
+		// one broadcast per iteration, as with a real Tendermint node whose
+		// BroadcastTxCommit returns only after the block: check-in,
+		// commitment and evals of a keyper land in three consecutive blocks,
+		// so there are blocks that carry nothing but commitments
+		sc.PlainBudget = 1
 	}
 	return sc
 }
@@ -416,6 +483,7 @@ func runC08(sc Scenario, victim int, plan []crashPoint, ref *c08Result, fail fai
 	r.AfterBlock = func(r *Run, closed int64) { vt.observeSecret(fmt.Sprintf("after block %d", closed)) }
 	// the plain fair schedule also during the DKG blocks
 	r.plainSchedule = true
+	r.checkPersisted = true
 	res.execErr = r.execute()
 	nUnits, nBcasts := -1, -1
 	if res.execErr == nil {
@@ -438,6 +506,7 @@ func runC08(sc Scenario, victim int, plan []crashPoint, ref *c08Result, fail fai
 	res.unsupported = r.unsupported()
 	res.h0 = r.h0
 	res.crashedPending = vt.crashedPending
+	res.crashedAfterCommitOnly = vt.crashedAfterCommitOnly
 	if res.execErr != nil || len(res.unsupported) > 0 {
 		if res.execErr != nil && len(res.unsupported) == 0 {
 			fail("no-progress", "%v\ncrashes: %v\n%s", res.execErr, vt.crashes, r.history())
@@ -464,12 +533,17 @@ func runC08(sc Scenario, victim int, plan []crashPoint, ref *c08Result, fail fai
 		res.prefixOK = false
 		res.divergence = fmt.Sprintf("crash point %v never reached (%d round trips, %d broadcasts in this run)", plan[0], len(vt.units), len(vt.bcasts))
 	}
+	res.persistFailed = len(r.persistProblems) > 0
+	if res.persistFailed && (ref == nil || !ref.persistFailed) {
+		// (reported once for the crash-free run; the crash cases then show what a crash makes of it)
+		fail(sigPersistedMemory, "after a committed main-loop iteration the DKG state in memory is not what the puredkg table holds - a crash at this moment loses the difference: %v\n%s", r.persistProblems, hist())
+	}
 	if len(r.stepErrors) > 0 {
 		fail("victim-loop-error", "a main-loop iteration failed although no fault was injected into it: %v\n%s", r.stepErrors, hist())
 	}
 	// (5) outcome as in the crash-free twin + the agreement oracle of C07
-	if vt.crashedPending {
-		// one root cause, one signature: the reloaded DKG state rejects the
+	if vt.crashedPending && isKnown("C08", sigReloadPending) {
+		// (only while that finding is open) one root cause, one signature: the reloaded DKG state rejects the
 		// commitments/evals that were still outstanding at the restart
 		if o, err := r.outcome(vt.node()); err == nil && o.HasRow && !o.Success && (strings.Contains(o.Error, "not considered corrupt") || strings.Contains(o.Error, "keypers participated")) {
 			fail(sigReloadPending, "the victim was restarted while its stored DKG state still waited for commitments/evals; afterwards it refused them and its DKG failed: dkg_result.error=%q (every other keyper succeeds, as does the victim in the crash-free twin)\n%s", o.Error, hist())
@@ -659,7 +733,7 @@ func canonRows(rows []map[string]any) string {
 
 // ---------------------------------------------------------------------------
 
-const c08Rule = "case = (victim keyper, crash point) in a DKG run in which the crash-free twin succeeds (n=3,t=2,L=8, every keyper one sync+onchain+send iteration per block; variants: all honest with two keyper-set orders and check-in fork on/off; one Byzantine keyper that deals a wrong eval to the victim and accuses it falsely, so that the victim also has an accusation and an apology to get through): every client->database round trip k of the victim observed in a crash-free reference run x {connection lost before the request, request executed (COMMIT applied) but reply lost}, and every accepted BroadcastTxCommit x {process dies before the outbox row is deleted}; thorough adds all three victims, a second scenario variant and sampled pairs of crashes. Non-trivial = the crash fell inside an open database transaction (block-tx, block-commit, onchain-tx, onchain-commit), on the outbox delete, or between an accepted broadcast and the delete (as opposed to an idle poll or a BEGIN). Distinct = (variant, victim, crash points)."
+const c08Rule = "case = (victim keyper, crash point) in a DKG run in which the crash-free twin succeeds (n=3,t=2,L=8, every keyper one sync+onchain+send iteration per block; variants: all honest with two keyper-set orders and check-in fork on/off; one Byzantine keyper that deals a wrong eval to the victim and accuses it falsely, so that the victim also has an accusation and an apology to get through): every client->database round trip k of the victim observed in a crash-free reference run x {connection lost before the request, request executed (COMMIT applied) but reply lost}, and every accepted BroadcastTxCommit x {process dies before the outbox row is deleted}; a fourth variant sends one message per keyper and block (commitment-only blocks exist); quick runs the one-message variant and the Byzantine variant with victim k1 and every 5th database point, thorough all four variants, all three victims, every point and sampled pairs of crashes. In addition, in every run (crash-free twin included), after every main-loop iteration of every honest keyper that ended without error the PureDKG objects in the keyper's memory (read through reflect) must equal the puredkg rows decoded from its database: what a keyper knows after a committed block must be persisted. Non-trivial = the crash fell inside an open database transaction (block-tx, block-commit, onchain-tx, onchain-commit), on the outbox delete, or between an accepted broadcast and the delete (as opposed to an idle poll or a BEGIN). Distinct = (variant, victim, crash points)."
 
 func c08Assumptions(rec *Recorder) {
 	rec.Assume(
@@ -698,10 +772,10 @@ func TestC08_CrashRecovery(t *testing.T) {
 	rec.AddRule(c08Rule)
 	c08Assumptions(rec)
 
-	variants := []int{0, 2}
+	variants := []int{3, 2}
 	victims := []int{1}
 	if thorough() {
-		variants = []int{0, 1, 2}
+		variants = []int{0, 1, 2, 3}
 		victims = []int{0, 1, 2}
 	}
 	caseNo := 0
@@ -724,8 +798,16 @@ func TestC08_CrashRecovery(t *testing.T) {
 				t.Fatalf("inconclusive: %v", ref.unsupported)
 			}
 			if len(refFail) > 0 {
-				rec.Violation("crash-free-run-fails", refFail[0], "")
-				t.Fatalf("VERIF-FAIL signature=crash-free-run-fails :: the crash-free reference run violates the oracles: %s", refFail[0])
+				if strings.HasPrefix(refFail[0], sigPersistedMemory+":") {
+					// the state oracle already fails without any crash: report it and
+					// go on - the crash cases show the consequence
+					path := rec.SaveReplay(t.Name(), fmt.Sprintf("reference-v%d-k%d", variant, victim), map[string]any{"variant": variant, "victim": victim, "plan": []crashPoint{}, "seed": seed})
+					rec.Violation(sigPersistedMemory, refFail[0], path)
+					t.Errorf("VERIF-FAIL signature=%s :: variant=%d victim=k%d crash-free run :: %s", sigPersistedMemory, variant, victim, refFail[0])
+				} else {
+					rec.Violation("crash-free-run-fails", refFail[0], "")
+					t.Fatalf("VERIF-FAIL signature=crash-free-run-fails :: the crash-free reference run violates the oracles: %s", refFail[0])
+				}
 			}
 			if len(ref.units) != len(ref2.units) || len(ref.bcasts) != len(ref2.bcasts) {
 				rec.Inconclusive("reference run not reproducible")
@@ -856,6 +938,9 @@ func TestC08_CrashRecovery(t *testing.T) {
 				nt := classNontrivial(class)
 				if res.crashedPending {
 					labels = append(labels, "restart-with-dkg-messages-outstanding")
+				}
+				if res.crashedAfterCommitOnly {
+					labels = append(labels, "crash-after-commitment-only-block")
 				}
 				if first.Kind == "db" {
 					if first.After {
